@@ -126,12 +126,21 @@ class AutonomousModeSelector:
                 for pkgdir in pkgdirs:
                     modules.extend(glob(os.path.join(pkgdir, "*.py")))
 
+        seen_module_names = set()
+
         for module_filename in modules:
             module = None
             module_name = os.path.basename(module_filename[:-3])
 
             if module_name in ["__init__"]:
                 continue
+
+            # a namespace package can have the same file name in several of
+            # its directories: python only ever imports the first one, so
+            # that module (and its modes) must only be looked at once
+            if module_name in seen_module_names:
+                continue
+            seen_module_names.add(module_name)
 
             try:
                 module = importlib.import_module("." + module_name, autonomous_pkgname)
